@@ -2,7 +2,7 @@
    Statements only, over the functions generated from the current source. *)
 From Coq Require Import String List ZArith Bool Lia Reals.
 From QV Require Import Lib.Res Lib.Tensor Lib.ND Lib.NDFacts Lib.Num Lib.QTensor Model.Quant
-     Proofs.QuantProofs Proofs.RealNum Proofs.ScaleProofs Proofs.ScaleReal.
+     Proofs.QuantProofs Proofs.RealNum Proofs.ScaleProofs Proofs.ScaleReal Proofs.MaxCells.
 From QD Require Import GenNum TieC03.
 Import ListNotations.
 Open Scope Z_scope.
@@ -60,3 +60,19 @@ Example C03_cells_example :
   members [2; 3] (eff_dims [2; 3] (zrange2 1 2)) 1 = [3; 4; 5] /\
   members [2; 3] (eff_dims [2; 3] (zrange2 0 1)) 2 = [2; 5].
 Proof. vm_compute. repeat split. Qed.
+
+(* MaxOptimizer (int2 / int4), for any number type, rank and shape: one scale per cell of the reduction (per kept-axis
+   index, or per group after grouping), equal to (max(cell max, 0) - min(cell min, 0)) / (2^bits - 1), where the cell
+   minimum and maximum are folds over exactly the members of that cell: the quantization range is the hull of the
+   cell and zero, and nothing outside the cell influences it *)
+Theorem C03_max_optimizer_cells : forall (F : Type) (NF : Num F) (base S Zp : tensor F) bits a,
+  pos_dims (shape base) -> shape base <> [] ->
+  src_max_optimize base bits (Some a) = Ok (S, Zp) ->
+  let rd := opt_dims base (Some a) in
+  shape S = red_shape (shape base) rd /\
+  forall c, 0 <= c < prodZ (shape S) ->
+    exists mn mx, cell_fold n_min base rd c = Some mn /\ cell_fold n_max base rd c = Some mx /\
+      zget (data S) c f0 =
+      n_div (n_sub (n_max mx (n_of_Z 0)) (n_min mn (n_of_Z 0))) (n_of_Z ((2 ^ (bits - 1) - 1) - (- 2 ^ (bits - 1)))).
+Proof. intros F NF. rewrite tie_max_optimize. exact (@max_optimize_cells F NF). Qed.
+Print Assumptions C03_max_optimizer_cells.
